@@ -4,6 +4,7 @@ set -e
 cd "$(dirname "$0")"
 export CARGO_NET_OFFLINE=true
 python3 translator/gen_constants.py
+python3 regen.py
 cd coq
 coq_makefile -f _CoqProject -o Makefile >/dev/null
 timeout 7000 make -j16 >/dev/null 2>make.err || { tail -40 make.err; exit 1; }
